@@ -373,30 +373,39 @@ theorem step_extra (hc : c.Legal) (hU : Univ c.kind U) (hI : Inv c U s spec n B)
 
 end
 
+/-- the map of the last durable point has distinct digests and its weight is below the byte count -/
+def DurW (specD : Spec) (B : Nat) : Prop := (specD.map (·.1)).Nodup ∧ specW specD ≤ B
+
 theorem run_ok3 {c : Cfg} {U : List (Bytes × Bytes)} (hc : c.Legal) (hU : Univ c.kind U) :
     ∀ (ops : List SOp) (s : SState) (spec specD : Spec) (n B : Nat),
-    Inv c U s spec n B → XInv c s → DiskWF s.d → Durable c U s.d specD →
+    Inv c U s spec n B → XInv c s → DiskWF s.d → Durable c U s.d specD → DurW specD B →
     (∀ op ∈ ops, op.isC02 = true) →
     (∀ op ∈ ops, ∀ k, op.keyOf = some k → ∀ dig, keyClass c.kind k = .ok dig → (k, dig) ∈ U) →
     n + ops.length < 1073741824 → B + (ops.map SOp.bytes).sum < two31 →
     Inv c U (runS s ops).1 (specRun c.kind c.imm spec ops).1 (n + ops.length)
         (B + (ops.map SOp.bytes).sum) ∧ XInv c (runS s ops).1 ∧ DiskWF (runS s ops).1.d ∧
-      Durable c U (runS s ops).1.d (lastDurable c.kind c.imm spec specD ops)
-  | [], _, _, _, _, _, hI, hX, hD, hDur, _, _, _, _ => ⟨hI, hX, hD, hDur⟩
-  | op :: ops, s, spec, specD, n, B, hI, hX, hD, hDur, ha, hk, hn, hB => by
+      Durable c U (runS s ops).1.d (lastDurable c.kind c.imm spec specD ops) ∧
+      DurW (lastDurable c.kind c.imm spec specD ops) (B + (ops.map SOp.bytes).sum)
+  | [], _, _, _, _, _, hI, hX, hD, hDur, hW, _, _, _, _ => ⟨hI, hX, hD, hDur, hW⟩
+  | op :: ops, s, spec, specD, n, B, hI, hX, hD, hDur, hW, ha, hk, hn, hB => by
     simp only [List.length_cons, List.map_cons, List.sum_cons] at hn hB ⊢
     obtain ⟨_, h2, h3⟩ := step_ok2 hc hU hI hX op (ha op (by simp)) (hk op (by simp)) (by omega)
       (by omega)
     obtain ⟨h4, h5⟩ := step_extra hc hU hI hX hD hDur op (ha op (by simp)) (by omega) (by omega)
-    obtain ⟨i1, i2, i3, i4⟩ := run_ok3 hc hU ops (stepS s op).1 (specStep c.kind c.imm spec op).1 _
-      (n + 1) (B + op.bytes) h2 h3 h4 h5 (fun o ho => ha o (by simp [ho]))
+    have h6 : DurW (if op.isDurable then (specStep c.kind c.imm spec op).1 else specD)
+        (B + op.bytes) := by
+      split
+      · exact ⟨h2.nodup, h2.w⟩
+      · exact ⟨hW.1, by have := hW.2; omega⟩
+    obtain ⟨i1, i2, i3, i4, i5⟩ := run_ok3 hc hU ops (stepS s op).1 (specStep c.kind c.imm spec op).1 _
+      (n + 1) (B + op.bytes) h2 h3 h4 h5 h6 (fun o ho => ha o (by simp [ho]))
       (fun o ho => hk o (by simp [ho])) (by omega) (by omega)
     rw [runS_cons_fst, specRun_cons_fst]
     have e1 : n + (ops.length + 1) = n + 1 + ops.length := by omega
     have e2 : B + (op.bytes + (ops.map SOp.bytes).sum) = B + op.bytes + (ops.map SOp.bytes).sum := by
       omega
     rw [e1, e2]
-    exact ⟨i1, i2, i3, i4⟩
+    exact ⟨i1, i2, i3, i4, i5⟩
 
 /-! ### the freshly opened store -/
 
@@ -429,9 +438,11 @@ theorem reachable_c03 (c : Cfg) (hc : c.Legal) (U : List (Bytes × Bytes)) (hU :
     (hs : SizesOK ops) (s : SState) (hi : initS c = some s) :
     Inv c U (runS s ops).1 (specRun c.kind c.imm [] ops).1 (0 + ops.length)
         (0 + (ops.map SOp.bytes).sum) ∧ XInv c (runS s ops).1 ∧ DiskWF (runS s ops).1.d ∧
-      Durable c U (runS s ops).1.d (lastDurable c.kind c.imm [] [] ops) := by
+      Durable c U (runS s ops).1.d (lastDurable c.kind c.imm [] [] ops) ∧
+      DurW (lastDurable c.kind c.imm [] [] ops) (0 + (ops.map SOp.bytes).sum) := by
   obtain ⟨h1, h2⟩ := extra_init c hc U s hi
-  apply run_ok3 hc hU ops s [] [] 0 0 (inv_init c hc _ s hi) (xinv_init c hc s hi) h1 h2 ha hk
+  apply run_ok3 hc hU ops s [] [] 0 0 (inv_init c hc _ s hi) (xinv_init c hc s hi) h1 h2
+    ⟨by simp, by simp [specW]⟩ ha hk
   · have := hs.1; omega
   · have := hs.2.1; omega
 
